@@ -649,6 +649,10 @@ def m_push(I, a, e, ci):
     if isinstance(cur, Bytes):
         ref.set(Bytes(cur.parts + [("byte", v)]))
         return UNIT
+    if isinstance(cur, Ite) and isinstance(cur.a, Vec) and isinstance(cur.b, Vec):
+        # push onto a conditionally built vector: pushed onto both alternatives
+        ref.set(Ite(cur.cond, Vec(cur.a.segs + [Seg(1, lambda j, v=v: v)]), Vec(cur.b.segs + [Seg(1, lambda j, v=v: v)])))
+        return UNIT
     lc = None
     for c in reversed(I.loop_ctx):
         if c.get("isym") is not None:
